@@ -86,7 +86,13 @@ def run_tests(tests, repo='/repo', tier='quick', seed=0, timeout=3600):
             try:
                 for t in todo:
                     fstem, tname = t.split('::', 1)
-                    cmd = ['cargo', 'test', '--offline', '--release', '--features', FEATURES, '--test', fstem, '--',
+                    # `name@dev`: the same test built with the dev profile (debug assertions and overflow checks ON, as in the
+                    # crate's own `cargo test`); the test reads VERIF_PROFILE to reduce its volume
+                    dev = tname.endswith('@dev')
+                    if dev:
+                        tname = tname[:-4]
+                    env['VERIF_PROFILE'] = 'dev' if dev else 'release'
+                    cmd = ['cargo', 'test', '--offline'] + ([] if dev else ['--release']) + ['--features', FEATURES, '--test', fstem, '--',
                            '--exact', tname, '--nocapture', '--test-threads', '1']
                     t0 = time.time()
                     try:
